@@ -92,6 +92,7 @@ func (in *inst) runScript(sc script) error {
 				in.forceFinish(c) // the model's call has returned: all its steps are over
 			}
 		case st.S == "DoneMark":
+			in.awaitWorker("done", 500*time.Millisecond)
 			if !in.release(func(pk *park) bool { return pk.kind == "done" }, decision{}) {
 				in.steerMiss++
 				continue
@@ -117,6 +118,7 @@ func (in *inst) runScript(sc script) error {
 			want := fmt.Sprint(st.B)
 			d := decision{fail: st.X == "fail"}
 			worker := func(pk *park) bool { return pk.kind == "bput" && in.gidProc[pk.gid] == 0 }
+			in.awaitWorker("bput", 2500*time.Millisecond)
 			ok := in.release(func(pk *park) bool { return worker(pk) && fmt.Sprint(pk.addrs) == want }, d)
 			if !ok {
 				ok = in.release(worker, d)
@@ -128,6 +130,7 @@ func (in *inst) runScript(sc script) error {
 			in.settle(2*time.Millisecond, 60*time.Millisecond)
 		case st.S == "WDelFS":
 			// the worker is between its storage put and its cache deletes: let it start deleting
+			in.awaitWorker("bputx", 500*time.Millisecond)
 			if in.release(func(pk *park) bool { return pk.kind == "bputx" && in.gidProc[pk.gid] == 0 }, decision{}) {
 				in.settle(2*time.Millisecond, 60*time.Millisecond)
 			}
@@ -138,6 +141,7 @@ func (in *inst) runScript(sc script) error {
 				}
 			}
 		case st.S == "WDelCount":
+			in.awaitWorker("dfs", 500*time.Millisecond)
 			ok := in.release(func(pk *park) bool { return pk.kind == "dfs" && in.gidProc[pk.gid] == 0 }, decision{})
 			if !ok {
 				in.steerMiss++
@@ -147,6 +151,24 @@ func (in *inst) runScript(sc script) error {
 		}
 	}
 	return in.finish()
+}
+
+// awaitWorker waits (bounded) until a flush worker is parked at the given gate; it gives up at once when no
+// batch is in flight and the scheduler sits at its round gate again (nothing can arrive). Steering only:
+// on a loaded machine the worker may need more than a moment to get there.
+func (in *inst) awaitWorker(kind string, d time.Duration) {
+	in.waitFor(func() bool {
+		idle := in.sent == in.done
+		for _, pk := range in.parked {
+			if pk.kind == kind && in.gidProc[pk.gid] == 0 {
+				return true
+			}
+			if pk.kind == "round" && idle && kind != "done" {
+				return true // nothing in flight
+			}
+		}
+		return false
+	}, d)
 }
 
 // forceFinish makes a call of the script that is still running complete (the script moved on to the
